@@ -2,6 +2,7 @@ import Rfsm.Audit
 import Rfsm.Proofs.ExprOps
 import Rfsm.Proofs.ExprLexerLemmas
 import Rfsm.Proofs.ExprFuel
+import Rfsm.Proofs.ExprEvalLemmas
 /-!
 # C11 — Expression parsing and evaluation always terminate with a value or an error
 
@@ -17,11 +18,6 @@ harness replays the same inputs on the real code (DESIGN §5 P3, P4, and the liv
 modelling `read_operator`).
 -/
 namespace Rfsm.Expr
-
-def Out.isValueOrError {α : Type} : Out α → Bool
-  | .ok _ => true
-  | .err _ => true
-  | _ => false
 
 /-- **C11 at full strength**: for every source text and every store, `execute` ends with a value
 or an error and holds no data lock afterwards. -/
